@@ -25,6 +25,9 @@ func runC04(c *Ctx) {
 	r04_6(c, "R04.6")
 	r04_7(c, "R04.7")
 	r04_8(c, "R04.8")
+	r04_9(c, "R04.9")
+	r04_10(c, "R04.10")
+	r04_11(c, "R04.11")
 }
 
 // transferFuncs: non-test functions of packages fsutil and copy.
@@ -730,4 +733,221 @@ func r04_8(c *Ctx, rule string) {
 	}
 	c.R.Floor(rule, "walk callback sites", n, 3)
 	// nextPath and getWalkerFn's send are selects with ctx.Done (covered by R04.1)
+}
+
+// R04.9: a failing change cancels the writers; Receive cancels its context on return.
+func r04_9(c *Ctx, rule string) {
+	c.R.Rule(rule, "DiskWriter.HandleChange installs, before any filesystem mutation, a deferred function that calls the writer's cancel when the change fails; Receive defers the cancel of the context it derives")
+	hc := c.Fn(rule, "fsutil.(*DiskWriter).HandleChange")
+	if hc != nil {
+		var def *ssa.Defer
+		var lit *ssa.Function
+		eng.Instrs(hc, func(in ssa.Instruction) {
+			d, ok := in.(*ssa.Defer)
+			if !ok {
+				return
+			}
+			if mc, ok := d.Call.Value.(*ssa.MakeClosure); ok {
+				f := mc.Fn.(*ssa.Function)
+				if len(c.P.CallsTo(f, "field:fsutil.DiskWriter.cancel")) > 0 {
+					def, lit = d, f
+				}
+			}
+		})
+		con := c.name(hc) + "/cancel-on-failure"
+		if def == nil {
+			c.R.Fail(rule, con, c.P.Pos(hc.Pos()), "HandleChange has no deferred function that cancels the writer context on failure: after a failed change the asynchronous writers keep waiting for data that will never be requested")
+		} else {
+			ok, _, _ := c.Precedes(hc, nil, nil, func(in ssa.Instruction) bool { return in == ssa.Instruction(def) }, c.callPred(append(append([]string{}, hcMutatorsC04...), "fsutil.(*DiskWriter).processChange", "fsutil.(*DiskWriter).requestAsyncFileData")...))
+			c.R.Check(ok, rule, con+"/installed-first", c.pos(def), "installed before any mutation or hand-off", "a mutation or hand-off of HandleChange is reachable before the cancel-on-failure defer is installed")
+			var cell string
+			for _, fv := range lit.FreeVars {
+				if isErrorPtr(fv.Type()) {
+					cell = "(*fv:" + fv.Name() + "==nil)"
+				}
+			}
+			hit, und := c.ReachableUnder(lit, map[string]bool{cell: false}, nil, c.callPred("field:fsutil.DiskWriter.cancel"))
+			c.R.Check(!und && hit != nil && cell != "", rule, con+"/cancels", c.P.Pos(lit.Pos()), "with a non-nil result the deferred function calls cancel", "the deferred function does not call cancel when the change failed")
+			// the cancel really cancels the context the writers run under
+			nd := c.Fn(rule, "fsutil.NewDiskWriter")
+			if nd != nil {
+				okc := false
+				for _, s := range fieldStoresIn(nd, "fsutil.DiskWriter.cancel") {
+					if c.DerivesFrom(s.Val, func(v ssa.Value) bool { return c.isCallValueTo(v, "context.WithCancel") }, 3) {
+						okc = true
+					}
+				}
+				okg := false
+				for _, call := range c.P.CallsTo(nd, "golang.org/x/sync/errgroup.WithContext") {
+					if c.DerivesFrom(call.Common().Args[0], func(v ssa.Value) bool { return c.isCallValueTo(v, "context.WithCancel") }, 3) {
+						okg = true
+					}
+				}
+				c.R.Check(okc && okg, rule, c.name(nd)+"/cancel-wiring", c.P.Pos(nd.Pos()), "DiskWriter.cancel cancels the context the writer group derives from", "DiskWriter.cancel is not the cancel function of the context the writer group runs under")
+			}
+		}
+	}
+	rc := c.Fn(rule, "fsutil.Receive")
+	if rc != nil {
+		ok := false
+		eng.Instrs(rc, func(in ssa.Instruction) {
+			if d, isD := in.(*ssa.Defer); isD {
+				if c.DerivesFrom(d.Call.Value, func(v ssa.Value) bool { return c.isCallValueTo(v, "context.WithCancel") }, 3) && d.Block().Index == 0 {
+					ok = true
+				}
+			}
+		})
+		c.R.Check(ok, rule, c.name(rc)+"/defer-cancel", c.P.Pos(rc.Pos()), "Receive defers the cancel of its derived context", "Receive does not cancel its derived context on return: goroutines selecting on it outlive the call")
+	}
+}
+
+var hcMutatorsC04 = []string{"os.RemoveAll", "fsutil.rewriteMetadata", "os.Mkdir", "fsutil.handleTarTypeBlockCharFifo", "os.Symlink", "os.Link", "os.OpenFile", "fsutil.renameFile"}
+
+// R04.10: goroutines of a group run under the group's context.
+func r04_10(c *Ctx, rule string) {
+	c.R.Rule(rule, "in a function that derives an errgroup context and starts goroutines on that group, the parent context is not used again (by the function or its literals): every select, poll and callee of those goroutines observes the group's cancellation")
+	n := 0
+	for _, fn := range transferFuncs(c, "fsutil", "copy") {
+		if fn.Parent() != nil {
+			continue
+		}
+		var wc *ssa.Call
+		for _, call := range c.P.CallsTo(fn, "golang.org/x/sync/errgroup.WithContext") {
+			wc, _ = call.(*ssa.Call)
+		}
+		if wc == nil || len(c.P.CallsTo(fn, "(*golang.org/x/sync/errgroup.Group).Go")) == 0 {
+			continue
+		}
+		n++
+		c.R.Analysed(c.name(fn))
+		parent := wc.Call.Args[0]
+		// the parent context value: a parameter, possibly spilled to a captured cell
+		var cells []ssa.Value
+		cells = append(cells, parent)
+		if u, ok := parent.(*ssa.UnOp); ok && u.Op == token.MUL {
+			cells = append(cells, u.X)
+		}
+		if p, ok := parent.(*ssa.Parameter); ok {
+			for _, r := range eng.Referrers(p) {
+				if s, isS := r.(*ssa.Store); isS && s.Val == ssa.Value(p) {
+					cells = append(cells, s.Addr)
+				}
+			}
+		}
+		// `g, ctx := errgroup.WithContext(ctx)` re-assigns the same variable:
+		// a cell that is stored the derived context afterwards holds the
+		// group context from then on.
+		rebound := func(cell ssa.Value) bool {
+			for _, r := range eng.Referrers(cell) {
+				if s, isS := r.(*ssa.Store); isS && s.Addr == cell {
+					if e, isE := s.Val.(*ssa.Extract); isE && e.Tuple == ssa.Value(wc) {
+						return true
+					}
+				}
+			}
+			return false
+		}
+		var kept []ssa.Value
+		for _, v := range cells {
+			if _, isAlloc := v.(*ssa.Alloc); isAlloc && rebound(v) {
+				continue
+			}
+			kept = append(kept, v)
+		}
+		cells = kept
+		bad := 0
+		check := func(f *ssa.Function, v ssa.Value) {
+			for _, r := range eng.Referrers(v) {
+				switch x := r.(type) {
+				case *ssa.Store:
+					if x.Addr == v || x.Val == v && f == fn && !eng.Dominates(wc, x) {
+						continue // the spill of the parameter itself
+					}
+				case *ssa.MakeClosure, *ssa.DebugRef:
+					continue
+				}
+				if r == ssa.Instruction(wc) {
+					continue
+				}
+				if u, isU := r.(*ssa.UnOp); isU && u.Op == token.MUL {
+					// a load of the cell: who uses the loaded value?
+					for _, r2 := range eng.Referrers(u) {
+						if r2 == ssa.Instruction(wc) {
+							continue
+						}
+						if f == fn && !eng.Dominates(wc, r2) {
+							continue
+						}
+						bad++
+						c.R.Fail(rule, fmt.Sprintf("%s/parent-context-use#%d", c.name(fn), bad), c.pos(r2), "the parent context of "+c.name(fn)+" is used in "+c.name(f)+" after the group context was derived: this wait/poll/callee does not see the group's cancellation (a failed sibling goroutine) and can block forever")
+					}
+					continue
+				}
+				if f == fn && !eng.Dominates(wc, r) {
+					continue
+				}
+				bad++
+				c.R.Fail(rule, fmt.Sprintf("%s/parent-context-use#%d", c.name(fn), bad), c.pos(r), "the parent context of "+c.name(fn)+" is used in "+c.name(f)+" after the group context was derived")
+			}
+		}
+		for _, v := range cells {
+			check(fn, v)
+		}
+		// captured in literals
+		for _, lit := range eng.Closures(fn) {
+			for _, fv := range lit.FreeVars {
+				root := c.P.Census().Root(fv)
+				for _, v := range cells {
+					if al, isA := v.(*ssa.Alloc); isA && root == al {
+						check(lit, fv)
+					}
+				}
+			}
+		}
+		if bad == 0 {
+			c.R.OK(rule, c.name(fn)+"/group-context-only", c.pos(wc), "after deriving the group context the parent context is not used again")
+		}
+	}
+	c.R.Floor(rule, "functions deriving a group context and starting goroutines on it", n, 3)
+}
+
+// blockingPrimitives: calls that may block the caller indefinitely and carry
+// no context. Each site must be tabled.
+var blockingPrimitives = map[string]bool{
+	"(*sync.WaitGroup).Wait": true, "(*sync.Cond).Wait": true, "time.Sleep": true,
+	"(*golang.org/x/sync/errgroup.Group).Wait": true, "(*golang.org/x/sync/errgroup.Group).SetLimit": true,
+	"(*golang.org/x/sync/semaphore.Weighted).Acquire": true, "(*sync.Once).Do": false,
+}
+
+var blockingAllowed = map[string]string{
+	"fsutil.(*sender).run/(*golang.org/x/sync/errgroup.Group).Wait":    "joins the sender's goroutines, all of which observe the group context (R04.1, R04.10)",
+	"fsutil.(*receiver).run/(*golang.org/x/sync/errgroup.Group).Wait":  "joins the receiver's goroutines",
+	"fsutil.doubleWalkDiff/(*golang.org/x/sync/errgroup.Group).Wait":   "joins the two walkers and the comparing loop",
+	"fsutil.(*DiskWriter).Wait/(*golang.org/x/sync/errgroup.Group).Wait": "joins the asynchronous writers; called by the diff goroutine only after the diff ended",
+}
+
+// R04.11: census of context-free blocking primitives.
+func r04_11(c *Ctx, rule string) {
+	c.R.Rule(rule, "context-free blocking primitives (WaitGroup/Cond/errgroup Wait, Sleep, semaphore Acquire, errgroup SetLimit - which makes Group.Go block its caller) occur only at tabled sites")
+	n := 0
+	for _, fn := range transferFuncs(c, "fsutil", "copy", "util") {
+		for _, call := range eng.Calls(fn) {
+			name := c.P.CalleeName(call)
+			if !blockingPrimitives[name] {
+				continue
+			}
+			n++
+			key := c.name(fn) + "/" + name
+			if why, ok := blockingAllowed[key]; ok {
+				c.R.OK(rule, c.siteName(call), c.pos(call), "tabled: "+why)
+				continue
+			}
+			extra := ""
+			if strings.HasSuffix(name, "SetLimit") {
+				extra = ": with a limit Group.Go blocks its caller until a slot is free; here the caller is the goroutine that must keep consuming the stream, so the transfer deadlocks once the limit is reached"
+			}
+			c.R.Fail(rule, c.siteName(call), c.pos(call), "context-free blocking call "+name+" in "+c.name(fn)+" is not in the table of joins"+extra)
+		}
+	}
+	c.R.Floor(rule, "blocking primitive sites", n, 4)
 }
